@@ -125,7 +125,7 @@ class Builtins:
 
     def set_payload(self, ref, payload, st):
         h = st.heap[ref.oid]
-        return st.put(ref.oid, HObj(h.kind, payload, h.cls, h.fields, {k: v for k, v in h.meta.items() if k not in ("pyitems",)}))
+        return st.put(ref.oid, HObj(h.kind, payload, h.cls, h.fields, {k: v for k, v in h.meta.items() if k not in ("pyitems", "member_set")}))
 
     def elem(self, t):
         return VElem(t)
@@ -440,6 +440,24 @@ class Builtins:
             raise Unsupported("comprehension with a condition")
 
         def k_iter(it, st2):
+            if kind == "list" and isinstance(it, VRef) and st2.heap[it.oid].kind == "set":
+                # a list built from the members of a set: order (and multiplicity of equal images) unspecified;
+                # what is known is its member set, the image of the set
+                def as_list(r, st3):
+                    R = st3.heap[r.oid].payload
+                    L = cx.fresh("listed", SeqV)
+                    y = z3.Const("y!ls", Val)
+                    st4 = st3.assume(z3.ForAll([y], z3.Contains(L, z3.Unit(y)) == R[y]))
+                    ref, st5 = self.alloc(st4, HObj("list", L, None, None, {"member_set": R}))
+                    return k(ref, st5)
+                return self.set_image(node, g, st2.heap[it.oid].payload, st2, as_list)
+            if kind == "set":
+                try:
+                    src = self._as_set_term(it, st2)
+                except Unsupported:
+                    src = None
+                if src is not None and not (isinstance(it, VTuple)):
+                    return self.set_image(node, g, src, st2, k)
             items = I.concrete_items(it, st2)
             if items is not None and not (isinstance(it, VRef) and st2.heap[it.oid].payload is not None and len(items) > 3):
                 return self.concrete_comp(kind, node, g, items, st2, k)
@@ -530,6 +548,44 @@ class Builtins:
             return res
         return I.ev(g.iter, st, k_iter)
 
+    def set_image(self, node, g, src, st, k, partial_into=None):
+        """{elt(x) for x in <members of src>}: image of a member set under a state-pure element expression.
+        Outcome A: every member evaluates normally, result = image.  Outcome B_i: some member makes outcome i of
+        the element expression raise (which one is met first depends on the unspecified iteration order)."""
+        I, cx = self.interp, self.cx
+        xj = cx.fresh("x", Val)
+        outs = []
+        base = St(st.env, st.heap, (), st.ghost)
+        for (kd, payload, st3) in I.assign(g.target, VElem(xj), base,
+                                           lambda s3: I.ev(node.elt, s3, lambda v, s4: [("elt", v, s4)])):
+            if any(st3.heap.get(o) is not base.heap.get(o) for o in base.heap):
+                raise Unsupported("comprehension element mutates the heap")
+            outs.append((kd, payload, z3.And(*st3.pc) if st3.pc else z3.BoolVal(True)))
+        normals = [o for o in outs if o[0] == "elt"]
+        raises = [o for o in outs if o[0] == "raise"]
+        if len(normals) != 1 or len(normals) + len(raises) != len(outs):
+            raise Unsupported("comprehension element with %d normal outcomes" % len(normals))
+        _, nv, ncond = normals[0]
+        rv = as_val(cx, nv, st)
+        x, y = z3.Const("x!img", Val), z3.Const("y!img", Val)
+        F = cx.image_fn(rv, xj)
+        R = F(src)
+        sub = lambda t, w: z3.substitute(t, (xj, w))
+        axA = z3.And(z3.ForAll([x], z3.Implies(src[x], z3.And(sub(ncond, x), R[sub(rv, x)]))),
+                     z3.ForAll([y], z3.Implies(R[y], z3.Exists([x], z3.And(src[x], sub(rv, x) == y)))))
+        res = []
+        r, st2 = self.alloc(st.assume(axA), HObj("set", R))
+        res += k(r, st2)
+        for (_, exc, rcond) in raises:
+            xb = cx.fresh("xbad", Val)
+            e2 = self.subst_exc(exc, lambda t, _i: z3.substitute(t, (xj, xb)), None)
+            stB = st.assume(src[xb], sub(rcond, xb))
+            if e2.sym is not None:
+                stB = stB.assume(*cx.exc_axioms(e2.sym))
+            if cx.feasible(stB):
+                res.append(("raise", e2, stB.gset("__fail_member__", xb)))
+        return res
+
     def subst_exc(self, exc, at, idx):
         e = VExc(cname=exc.cname, sym=at(exc.sym, idx) if exc.sym is not None else None,
                  origin=exc.origin if not isinstance(exc.origin, tuple) else tuple(
@@ -581,6 +637,12 @@ class Builtins:
                     return k(VInt(z3.Length(h.payload)), st)
                 if "pyitems" in h.meta:
                     return k(VInt(len(h.meta["pyitems"])), st)
+            if isinstance(x, VRef) and st.heap[x.oid].kind in ("set", "dict"):
+                h = st.heap[x.oid]
+                card = z3.Function("card_" + h.kind, h.payload.sort(), z3.IntSort())(h.payload)
+                empty = EMPTY_SET if h.kind == "set" else EMPTY_MAP
+                cx.axioms.append(z3.And(card >= 0, (card == 0) == (h.payload == empty)))
+                return k(VInt(card), st)
             if isinstance(x, VTuple):
                 return k(VInt(len(x.items)), st)
             if isinstance(x, VStr) and x.t is not None:
@@ -600,6 +662,16 @@ class Builtins:
             return k(VInt(ite(args[0].t < 0, -args[0].t, args[0].t)), st)
         if name == "isinstance":
             return k(VBool(self.isinstance_(args[0], args[1], st)), st)
+        if name == "chain.from_iterable":
+            (its,) = args
+            if not isinstance(its, VTuple):
+                raise Unsupported("chain.from_iterable of a non-tuple")
+            x = z3.Const("x!ch", Val)
+            terms = [self._as_set_term(i, st) for i in its.items]
+            u = z3.Lambda([x], z3.Or(*[t[x] for t in terms])) if terms else EMPTY_SET
+            return k(VFunc("members", set=u), st)
+        if name == "type" and len(args) == 1 and isinstance(args[0], VRef) and st.heap[args[0].oid].cls:
+            return k(VFunc("class", name=st.heap[args[0].oid].cls), st)
         if name == "operator.index":
             (x,) = args
             if isinstance(x, VInt):
@@ -752,6 +824,8 @@ class Builtins:
     def construct(self, name, args, kwargs, st, k):
         cx = self.cx
         I = self.interp
+        if name == "type":
+            return self.call_builtin("type", args, kwargs, st, k)
         if name == "slice":
             vs = list(args)
             if len(vs) == 1:
@@ -815,10 +889,33 @@ class Builtins:
                           lambda _n, st4: k(r, st4))
         found_new = I.find_method(name, "__new__")
         if found_new is not None and found_new[0] == "repo":
-            hk = getattr(self.cx, "new_hook", None)
-            if hk is None:
-                raise Unsupported("__new__ of %s" % name)
-            return hk(I, name, r, st2, after_new)
+            # cls.__new__(cls, *args, **kwargs) executed from its AST; `super().__new__(cls)` yields the fresh object
+            node = found_new[2]
+            if not (node.args.vararg and node.args.kwarg) and (args or kwargs):
+                raise Unsupported("__new__ with a fixed signature")
+            saved = st2.ghost.get("__new_obj__")
+            st3 = st2.gset("__new_obj__", r)
+            env0 = st3.env
+            out = []
+            saved_cls = self.cx.cur_class
+            self.cx.cur_class = found_new[1]
+            try:
+                body = I.block(node.body, st3.with_env({node.args.args[0].arg: VFunc("class", name=name),
+                                                        node.args.vararg.arg if node.args.vararg else "_a": VTuple(args)}
+                                                       ).gset("__class__", found_new[1]))
+            finally:
+                self.cx.cur_class = saved_cls
+            for (kind, payload, st4) in body:
+                st5 = st4.with_env(env0).gset("__new_obj__", saved).gset("__class__", st.ghost.get("__class__"))
+                if kind == "return":
+                    if not (isinstance(payload, VRef) and payload.oid == r.oid):
+                        raise Unsupported("__new__ returning another object")
+                    out += after_new(st5)
+                elif kind == "raise":
+                    out.append((kind, payload, st5))
+                else:
+                    raise Unsupported("__new__ without return")
+            return out
         return after_new(st2)
 
     # ------------------------------------------------------------------ method dispatch
@@ -1233,6 +1330,8 @@ class Builtins:
             h = st.heap[v.oid]
             if h.kind == "set":
                 return h.payload
+            if h.kind in ("list", "tuple") and "member_set" in h.meta:
+                return h.meta["member_set"]
             if h.kind in ("list", "tuple") and h.payload is not None:
                 x = z3.Const("x!t", Val)
                 return z3.Lambda([x], z3.Contains(h.payload, z3.Unit(x)))
@@ -1242,6 +1341,8 @@ class Builtins:
         if isinstance(v, VFunc) and v.kind == "iterable":
             x = z3.Const("x!t", Val)
             return z3.Lambda([x], z3.Contains(v.seq, z3.Unit(x)))
+        if isinstance(v, VFunc) and v.kind == "members":
+            return v.set
         if isinstance(v, VTuple):
             s = EMPTY_SET
             for it in v.items:
@@ -1298,6 +1399,31 @@ class Builtins:
         return k(r, st2)
 
     def m_set_update(self, ref, args, kwargs, st, k):
+        if len(args) == 1 and isinstance(args[0], VGen):
+            gen = args[0]
+            g = gen.node.generators[0]
+            if len(gen.node.generators) != 1 or g.ifs:
+                raise Unsupported("generator with conditions")
+            A = st.heap[ref.oid].payload
+            x = z3.Const("x!s", Val)
+            out = []
+
+            def k_it(it, st2):
+                src = self._as_set_term(it, st2)
+                res = []
+                for (kind, payload, st3) in self.set_image(gen.node, g, src, st2, lambda r, s3: [("ok", r, s3)]):
+                    st3 = st3.with_env(st.env)
+                    if kind == "ok":
+                        Rimg = st3.heap[payload.oid].payload
+                        res += k(NONE, self.set_payload(ref, z3.Lambda([x], z3.Or(A[x], Rimg[x])), st3))
+                    elif kind == "raise":
+                        # items produced before the failing one were already added: some subset, order unspecified
+                        P = self.cx.fresh("partial", SetV)
+                        res.append((kind, payload, self.set_payload(ref, z3.Lambda([x], z3.Or(A[x], P[x])), st3)))
+                    else:
+                        res.append((kind, payload, st3))
+                return res
+            return self.interp.ev(g.iter, st.with_env(gen.env), k_it)
         return k(NONE, self.set_payload(ref, self._set_binop(ref, args, st, lambda a, b: z3.Or(a, b)), st))
 
     def m_set_difference_update(self, ref, args, kwargs, st, k):
